@@ -11,11 +11,11 @@ from . import world as W
 def gen_stage_world(rng, **force):
     """A generated database for stage-level work (text only, no reads)."""
     o = dict(gene_len=rng.choice([420, 600]), strand=rng.choice("+-"), n_exons=rng.choice([2, 3, 4]),
-             n_variants=rng.choice([4, 5, 6, 7]), n_major=rng.choice([2, 3, 4]),
+             n_variants=rng.choice([5, 6, 7, 8]), n_major=rng.choice([2, 2, 3, 4]),
              kinds=["snp", "snp", "snp", "del", "ins", "mnp"], deletion=rng.random() < 0.7,
              lfusion=rng.random() < 0.4, rfusion=rng.random() < 0.4, pseudo=rng.random() < 0.85,
              ambiguous=rng.random() < 0.5, cn_subset=rng.random() < 0.3,
-             multiallelic=rng.random() < 0.5)
+             multiallelic=rng.random() < 0.5, orphan_core=rng.random() < 0.5)
     o.update(force)
     if not o["pseudo"]:
         o["lfusion"] = o["rfusion"] = False
